@@ -24,7 +24,7 @@ RULE = ("Part A (schedules): retries r in 1..4, every pattern of per-transmissio
         "marker-free garbage, marker-bearing garbage, peer close} x {handshake, data phase}, connect refused / unreachable / unresolvable / hanging, "
         "cancellation at every interval between loop events, from start states {cold, warm, peer-closed idle, auth expired}; "
         "then one exchange with an honest prompt device must succeed with no user call in between (V3: after a new handshake). Also: a two-exchange "
-        "refresh whose first exchange alone meets each fault; a connection that carried > 65536 packets before its authentication expired. "
+        "refresh whose first exchange alone meets each fault; the implicit V3 handshake of an exchange with its first k requests lost (k = 0 .. budget + 1); a connection that carried > 65536 packets before its authentication expired. "
         "state = (protocol, start, fault history) ; transition = one exchange")
 ASSUMPTIONS = ["operations of a history do not overlap", "answer delays are off the 2 s grid so no environment event ties with a library timer",
                "the user has authenticated once (honestly) before faults start; re-authentication afterwards is the library's job"]
@@ -80,6 +80,7 @@ def shards(tier):
                 out.append(("B", v, start, part, 4))
         out.append(("B1", v, 1, 0, 1))
     out.append(("Bworn", 3, 4, 0, 1))
+    out.append(("AH", 3, 0, 0, 1))
     return out
 
 
@@ -495,7 +496,8 @@ def run_B1(st: Stats, version):
     answered promptly, must succeed within the same refresh (the device is online, its energy data is read)."""
     for start in range(4 if version == 3 else 3):
         for f in faults(version):
-            if f[1] != "data":
+            if f[1] != "data" and f != ("drop", "handshake"):
+                # (a handshake request that gets no answer once, then is answered when retransmitted, is knowable as well)
                 continue
             case = {"part": "B1", "version": version, "start": STARTS[start], "seq": [list(map(str, f))], "once": True}
             out, log, dev, ac, net, _ = exec_B(version, start, [f], once=True, energy=True)
@@ -513,6 +515,80 @@ def run_B1(st: Stats, version):
             st.state(("B1", version, start, f))
             st.transitions += 2
             st.ev(("B1", version, start, f), "/".join(r for r, _ in log), True)
+
+
+def run_AH(st: Stats):
+    """V3, the retry contract of the IMPLICIT handshake inside an exchange: the first k handshake requests never reach the
+    device (k = 0 .. budget), the next one is answered promptly."""
+    budget = LAN.RETRIES
+    for how in ("closed", "expired"):
+        for k in range(0, budget + 2):
+            w = World()
+            token, key = filler("c08/tok", 64), filler("c08/key", 32)
+            lost = {"n": 0, "armed": False}
+
+            def lossy(conn, ptype, lost=lost, k=k):
+                if lost["armed"] and ptype == rc.T_HANDSHAKE_REQ and lost["n"] < k:
+                    lost["n"] += 1
+                    return True
+                return False
+
+            dev = SimDevice(version=3, token=token, key=key, device_id=5)
+            dev.lossy = lossy
+            w.net.listen(IP, PORT, dev)
+            lan = LAN(IP, PORT, 5)
+
+            async def drive():
+                await lan.authenticate(token, key)
+                await lan.send(CMD)
+                if how == "closed":
+                    w.net.conns[-1].peer_close(0.001)
+                    await asyncio.sleep(0.01)
+                else:
+                    w.loop.jump(13 * 3600)
+                lost["armed"] = True
+                n0 = len(dev.rx)
+                try:
+                    r = ("ok", len(await lan.send(CMD)))
+                except BaseException as e:  # noqa: BLE001
+                    r = (type(e).__name__, str(e)[:60])
+                hs = sum(1 for e in dev.rx[n0:] if e.get("ptype") == rc.T_HANDSHAKE_REQ)
+                lost["armed"] = False
+                try:
+                    r2 = ("ok", len(await lan.send(CMD)))
+                except BaseException as e:  # noqa: BLE001
+                    r2 = (type(e).__name__, str(e)[:60])
+                return r, hs, r2
+
+            try:
+                out = w.run(drive())
+            finally:
+                w.close()
+            case = {"part": "AH", "version": 3, "how": how, "lost_handshakes": k, "budget": budget}
+            prob = None
+            if out[0] != "ok":
+                prob = f"driver ended with {exc_class(out)}"
+            else:
+                r, hs, r2 = out[1]
+                if k < budget:
+                    if r[0] != "ok":
+                        prob = f"{k} lost handshake request(s), budget {budget}: exchange raised {r[0]} after {hs} handshake transmissions"
+                    elif hs != k + 1:
+                        prob = f"{hs} handshake transmissions, expected {k + 1}"
+                else:
+                    if r[0] == "ok":
+                        prob = "exchange succeeded although no handshake request reached the device"
+                    elif r[0] not in ("TimeoutError", "AuthenticationError", "ProtocolError"):
+                        prob = f"exchange raised {r[0]}"
+                    elif hs != budget:
+                        prob = f"{hs} handshake transmissions, budget {budget}"
+                if prob is None and r2[0] != "ok":
+                    prob = f"following exchange with a prompt device raised {r2[0]}"
+            if prob:
+                st.violation(f"AH v3 implicit handshake ({how}): " + prob.split(":")[0][:80], case, "retransmitted within the budget, then recovery", prob)
+            st.state(("AH", how, k))
+            st.transitions += 2
+            st.ev(("AH", how, k), str(out[1][0][0]) if out[0] == "ok" else "driver", True)
 
 
 def run_Bworn(st: Stats):
@@ -536,7 +612,9 @@ def run_Bworn(st: Stats):
 def run_shard(shard, tier) -> Stats:
     st = Stats()
     kind, version, a, part, nparts = shard
-    if kind == "B1":
+    if kind == "AH":
+        run_AH(st)
+    elif kind == "B1":
         run_B1(st, version)
     elif kind == "Bworn":
         run_Bworn(st)
